@@ -226,7 +226,9 @@ def build(node, env=None, path='r'):
         return done(ds.map(env.fn(path, functools.partial(progs.f_none, node['m'], node['r']))))
     if op == 'filter':
         pred = progs.f_pred_seq if node.get('int') == 'seq' else progs.f_pred_int if node.get('int') else progs.f_pred
-        return done(ds.filter(env.fn(path, functools.partial(pred, node['m'], node['r'])), lazy=node['lazy']))
+        # the flag as callers produce it: a bool, an int, or a numpy bool from a comparison
+        lazy = {'int': int, 'np': np.bool_}.get(node.get('lazy_as'), bool)(node['lazy'])
+        return done(ds.filter(env.fn(path, functools.partial(pred, node['m'], node['r'])), lazy=lazy))
     if op == 'slice':
         form = make_form(node['form'])
         out = ds[form]
